@@ -136,7 +136,22 @@ def run(prop, tier, seed, scratch, replay, t0):
             cov = None
     try:
         if replay:
-            res = mod.replay(ctx, json.load(open(replay)))
+            payload = json.load(open(replay))
+            res = mod.replay(ctx, payload)
+            if not res.oracle_failures and not res.corr_disagreements and res.evaluations == 0 \
+                    and payload.get("kind") == "property fails on the real code":
+                # the recorded failure is not a single replayable case (a directed whole-file scenario, a large input): the
+                # generators are functions of the seed, so the run that found it is repeated as a whole and its failures
+                # are compared with the recorded one
+                rs, rt = payload.get("seed", seed), payload.get("tier", tier)
+                print("replay: no single replayable case in this file - repeating the %s run of seed %s" % (rt, rs))
+                ctx = Ctx(prop, rt, rs, scratch, model_ok)
+                res = mod.run(ctx)
+                same = [w for w, _ in res.oracle_failures if w == payload.get("what")]
+                print("replay: recorded failure %s: %s" % ("REPRODUCED" if same else "not reproduced", payload.get("what")))
+                if not same:
+                    res.oracle_failures = [x for x in res.oracle_failures if False]
+                    res.corr_disagreements = []
         else:
             res = mod.run(ctx)
     except common.Infra:
@@ -204,6 +219,7 @@ def run(prop, tier, seed, scratch, replay, t0):
         what, payload = res.oracle_failures[0]
         path = common.write_replay(prop, "oracle", {
             "property": prop, "kind": "property fails on the real code", "what": what, "input": payload,
+            "seed": seed, "tier": tier,
             "n_failures": len(res.oracle_failures),
             "other_failures": [w for w, _ in res.oracle_failures[1:6]]})
         vio_line = "VIOLATION property=%s replay=%s" % (prop, path)
